@@ -685,6 +685,10 @@ class CAMTransmissionManagement:
         self._active: bool = False
         self._timer: Optional[threading.Timer] = None
 
+        # Time of the last CAM ever sent; survives stop()/start() so that T_GenCamMin also
+        # holds between the last CAM of one activation and the first CAM of the next
+        self._last_cam_time_overall_ms: Optional[int] = None
+
         # Legacy compatibility attribute
         self.last_cam_generation_delta_time: Optional[GenerationDeltaTime] = None
 
@@ -780,6 +784,11 @@ class CAMTransmissionManagement:
 
         # First CAM after activation — send immediately (no elapsed constraint)
         if self._last_cam_time_ms is None:
+            if (
+                self._last_cam_time_overall_ms is not None
+                and now_ms - self._last_cam_time_overall_ms < T_GEN_CAM_MIN
+            ):
+                return  # restarted less than T_GenCamMin after the previous CAM: next check
             self._generate_and_send_cam(tpv, now_ms, condition=1)
             return
 
@@ -1044,6 +1053,7 @@ class CAMTransmissionManagement:
 
         # Update last-CAM dynamics reference
         self._last_cam_time_ms = now_ms
+        self._last_cam_time_overall_ms = now_ms
         if "track" in tpv:
             self._last_cam_heading = tpv["track"]
         if "lat" in tpv and "lon" in tpv:
